@@ -29,7 +29,9 @@ NAMES = ['a', 'b', 'c']
 def ops_strategy(n):
     prov = st.tuples(st.just('provision'), st.integers(1, n + 1), st.sampled_from(NAMES))
     rel = st.tuples(st.just('release'), st.sampled_from(NAMES))
-    ing = st.tuples(st.just('ingest'), st.integers(1, n), st.integers(1, 4))
+    ing = st.one_of(st.tuples(st.just('ingest'), st.integers(1, n), st.integers(1, 4)),
+                    st.tuples(st.just('ingest'), st.integers(1, n), st.integers(1, 4)),
+                    st.tuples(st.just('ingest_force'), st.integers(1, n + 1), st.integers(1, 4)))
     alloc = st.tuples(st.just('allocate'), st.integers(0, 4), st.integers(0, n - 1),
                       st.sampled_from([None] + NAMES))
     adv = st.tuples(st.just('advance'), st.integers(1, 3))
@@ -140,6 +142,8 @@ class C02(SimSpec):
         for demand in range(1, n + 1):
             for dur in (1, 2):
                 alphabet.append(['ingest', demand, dur])
+        alphabet.append(['ingest_force', n, 1])
+        alphabet.append(['ingest_force', n + 1, 1])
         for dur in (0, 2):
             for mi in range(n):
                 for obs in [None] + NAMES[:2]:
